@@ -136,7 +136,7 @@ func SSels(ss ast.SelectionSet, spreads map[string]int) string {
 			if s.ObjectDefinition != nil {
 				od = s.ObjectDefinition.Name
 			}
-			items = append(items, "SanFrag "+CoqStr(s.TypeCondition)+" "+CoqStr(od)+" "+SSels(s.SelectionSet, spreads))
+			items = append(items, "SanFrag "+CoqStr(s.TypeCondition)+" "+CoqStr(od)+" "+itoa(len(s.Directives))+" "+SSels(s.SelectionSet, spreads))
 		case *ast.FragmentSpread:
 			od := ""
 			if s.ObjectDefinition != nil {
@@ -146,7 +146,7 @@ func SSels(ss ast.SelectionSet, spreads map[string]int) string {
 				if spreads != nil {
 					spreads[s.Name]++
 				}
-				items = append(items, "SanFrag "+CoqStr(s.Definition.TypeCondition)+" "+CoqStr(od)+" "+SSels(s.Definition.SelectionSet, spreads))
+				items = append(items, "SanFrag "+CoqStr(s.Definition.TypeCondition)+" "+CoqStr(od)+" "+itoa(len(s.Directives))+" "+SSels(s.Definition.SelectionSet, spreads))
 			}
 		}
 	}
